@@ -252,6 +252,7 @@ type corpusOpts struct {
 	comments      bool // inject comments at every CTE-expressible position (C02)
 	customText    bool
 	contextsAll   bool
+	refMaxLen     int // reference family: containers up to this many elements (0 = none)
 }
 
 // forEachCorpusDoc enumerates the three sweeps. visit gets the document and a class string for signatures.
@@ -298,6 +299,15 @@ func forEachCorpusDoc(c *fx.Ctx, o corpusOpts, visit func(doc []ev.E, cls string
 
 	// 2b. pair sweep
 	pairSweep(c, o, visit)
+
+	// 2c. reference family: forward/backward references in containers of growing size
+	for _, rd := range refFamily(o.refMaxLen) {
+		if !c.Take() {
+			continue
+		}
+		c.Add("reference_docs", 1)
+		visit(rd.doc, "refs:"+familyClass(rd.name))
+	}
 
 	// 3. array sweep
 	lengths := []int{}
